@@ -15,6 +15,10 @@
 //	    rejected by the recipient (unicast) / by some honest party or the aggregator (broadcast);
 //	    a leaf marked late is rejected by some honest party or the aggregator.
 //
+// The parties run in a child process supervised by this program (see supervise): a panic in a
+// goroutine started by the library cannot be recovered and would otherwise kill the check.
+// Regression cases of earlier findings are kept in corpus/c04/cases.txt and run first.
+//
 // (a)-(c) are model-free (Kind "prop"); (d) compares with the model's classification table
 // (Kind "prop" as well, because a bound leaf that goes undetected is a failure of the property
 // itself; What names the model theorem).
